@@ -14,6 +14,7 @@ import (
 	"verifharness/drv"
 	"verifharness/evid"
 	"verifharness/rec"
+	"verifharness/sessrep"
 	"verifharness/tlcrun"
 	"verifharness/wire"
 )
@@ -454,6 +455,11 @@ func init() {
 		if len(good) > 1 {
 			samples = append(samples, good[len(good)/3], good[len(good)-1])
 		}
+		// an error is also owed when the message stopped arriving (MC_Idle: the reader's
+		// time-out passed on by the backend is reported with the generic data code)
+		imc := modelCheck("MC_Idle", "MC_Idle.cfg", 8)
+		ist := tourSome(run, dumpEdges("MC_Idle", "Dump_Idle.cfg"), func(e *sessrep.Edge) bool { return e.Lbl.Cmd.C == "DATASTALL" })
+		fmt.Printf("C17: MC_Idle %d states; %d/%d stalled-DATA transitions replayed\n", imc.Distinct, ist.Covered, ist.Edges)
 		run.Finish("model_checking", evid.Coverage{
 			"states": mc.Distinct, "transitions": mc.Generated, "traces_validated_against_impl": len(good), "cases": len(cases),
 			"samples": samples, "checker_cmd": mc.Cmd,
